@@ -119,6 +119,20 @@ for P_ in ('Point1', 'Point2', 'Point3'):
     # (a recursive implementation cannot be inlined at all; the shim's body then calls itself through the same mapping)
     add('<cgmath::%s<R> as cgmath::EuclideanSpace>::centroid' % P_, 'p: &[%s<R>]' % P_, '%s<R>' % P_, '<%s<R> as EuclideanSpace>::centroid(p)' % P_)
     add('<cgmath::%s<R> as cgmath::EuclideanSpace>::midpoint' % P_, 'p: %s<R>, q: %s<R>' % (P_, P_), '%s<R>' % P_, 'p.midpoint(q)')
+# Transform methods (trait defaults that call each other, e.g. inverse_transform_vector via transform_point)
+DEC = [('cgmath::Decomposed<cgmath::Vector3<R>, cgmath::Quaternion<R>>', 'Decomposed<Vector3<R>, Quaternion<R>>', 'Point3', 'Vector3'),
+       ('cgmath::Decomposed<cgmath::Vector3<R>, cgmath::Basis3<R>>', 'Decomposed<Vector3<R>, Basis3<R>>', 'Point3', 'Vector3'),
+       ('cgmath::Decomposed<cgmath::Vector2<R>, cgmath::Basis2<R>>', 'Decomposed<Vector2<R>, Basis2<R>>', 'Point2', 'Vector2'),
+       ('cgmath::Matrix3<R>', 'Matrix3<R>', 'Point2', 'Vector2'), ('cgmath::Matrix3<R>', 'Matrix3<R>', 'Point3', 'Vector3'),
+       ('cgmath::Matrix4<R>', 'Matrix4<R>', 'Point3', 'Vector3')]
+for T, TS, P_, V_ in DEC:
+    tr = 'cgmath::Transform<cgmath::%s<R>>' % P_
+    ts = 'Transform<%s<R>>' % P_
+    add('<%s as %s>::transform_point' % (T, tr), 't: &%s, p: %s<R>' % (TS, P_), '%s<R>' % P_, '<%s as %s>::transform_point(t, p)' % (TS, ts))
+    add('<%s as %s>::transform_vector' % (T, tr), 't: &%s, v: %s<R>' % (TS, V_), '%s<R>' % V_, '<%s as %s>::transform_vector(t, v)' % (TS, ts))
+    add('<%s as %s>::inverse_transform' % (T, tr), 't: &%s' % TS, 'Option<%s>' % TS, '<%s as %s>::inverse_transform(t)' % (TS, ts))
+    add('<%s as %s>::inverse_transform_vector' % (T, tr), 't: &%s, v: %s<R>' % (TS, V_), 'Option<%s<R>>' % V_, '<%s as %s>::inverse_transform_vector(t, v)' % (TS, ts))
+    add('<%s as %s>::concat' % (T, tr), 't: &%s, u: &%s' % (TS, TS), TS, '<%s as %s>::concat(t, u)' % (TS, ts))
 out = ['//! GENERATED by tools/gen_shims.py -- do not edit.  See that file for the rationale.', '#![allow(non_snake_case)]', 'use crate::*;', 'use cgmath::*;', '']
 seen = set()
 for callee, params, ret, body in E:
